@@ -148,7 +148,7 @@ uint64_t plan_shape_hash(const Plan &p) {
 namespace {
 const uint32_t F_LARGE = 1, F_HARD = 2, F_FULL = 4, F_JIT = 8, F_SECURE = 16, F_ARGON = 96, F_V2 = 128;
 struct Iv { uint64_t lo, hi; Blob key; uint32_t cflags; };
-struct MC { bool alive = false; uint32_t flags = 0; bool has_key = false; Blob key; int epoch = 0; int id = 0; };
+struct MC { bool alive = false; uint32_t flags = 0; bool has_key = false; Blob key; int epoch = 0; int id = 0; bool has_failed = false; Blob failed_key; std::set<Blob> ever; };
 struct MD { bool alive = false; uint32_t flags = 0; int id = 0; std::vector<Iv> iv; bool guarded = false; };
 struct MV { bool alive = false; uint32_t flags = 0; bool v2 = false; int c = -1, cid = 0, cepoch = 0; int d = -1, did = 0; int pending = -1; bool batch = false; };
 const int MAXC = 16, MAXD = 8, MAXV = 32;
@@ -214,7 +214,7 @@ Annotated annotate(const Plan &p, uint64_t N) {
 		auto needc = [&](int c) { return c >= 0 && c < MAXC; };
 		auto needd = [&](int d) { return d >= 0 && d < MAXD; };
 		auto needv = [&](int v) { return v >= 0 && v < MAXV; };
-		if (!o.fault.empty() && !(o.kind == ALLOC_CACHE || o.kind == ALLOC_DATASET || o.kind == CREATE_VM || o.kind == HASH || o.kind == FIRST || o.kind == NEXT || o.kind == LAST || o.kind == COMMIT))
+		if (!o.fault.empty() && !(o.kind == ALLOC_CACHE || o.kind == ALLOC_DATASET || o.kind == CREATE_VM || o.kind == HASH || o.kind == FIRST || o.kind == NEXT || o.kind == LAST || o.kind == COMMIT || o.kind == INIT_CACHE))
 			return fail(i, "allocation fault on a call that is not generated with faults");
 		if (o.expect_null && o.fault.empty()) return fail(i, "expect_null without fault");
 		if (o.env >= 0 && !(o.kind == HASH || o.kind == FIRST || o.kind == NEXT || o.kind == LAST)) return fail(i, "environment on a non-hash call");
@@ -229,8 +229,21 @@ Annotated annotate(const Plan &p, uint64_t N) {
 			if (!needc(o.c) || !C[o.c].alive) return fail(i, "cache not alive");
 			if (o.key < 0 || o.key >= (int)p.keys.size()) return fail(i, "bad key index");
 			ct[{o.phase, o.c}].mut_tasks.insert(o.task);
+			if (!o.fault.empty()) {
+				// an allocation request inside the initialisation fails (ordinals are generated far below the thousands of
+				// requests every initialisation makes, so the fault fires): the call throws, the cache counts as not
+				// initialised until a later init_cache succeeds, and every VM must be re-bound after that
+				if (C[o.c].has_key && C[o.c].key == p.keys[o.key]) return fail(i, "faulted init_cache with the key the cache already has (a no-op cannot fail)");
+				C[o.c].has_key = false; C[o.c].failed_key = p.keys[o.key]; C[o.c].has_failed = true; C[o.c].epoch++;
+				pr["init_cache_faulted"]++;
+				break;
+			}
+			// after a failed initialisation only the key of the failed attempt (or one never loaded) is generated: what
+			// init_cache(old key) does to a cache whose memory a failed attempt has already overwritten is not covered by any listed property
+			if (C[o.c].has_failed && !C[o.c].has_key && !(C[o.c].failed_key == p.keys[o.key]) && C[o.c].ever.count(p.keys[o.key])) return fail(i, "init_cache after a failed attempt with a key the cache held before");
 			if (!C[o.c].has_key || !(C[o.c].key == p.keys[o.key])) { if (C[o.c].has_key) pr["rekey"]++; C[o.c].has_key = true; C[o.c].key = p.keys[o.key]; C[o.c].epoch++; }
 			else pr["init_cache_shortcut"]++;
+			C[o.c].ever.insert(p.keys[o.key]); C[o.c].has_failed = false;
 			break;
 		case RELEASE_CACHE:
 			if (!needc(o.c) || !C[o.c].alive) return fail(i, "cache not alive");
